@@ -211,8 +211,17 @@ def parse_out(text):
             res[cur].append(l)
     return res
 
+def _big_stack():
+    # the extracted models recurse structurally over lists (no tail calls): give the driver a large stack
+    import resource
+    try: resource.setrlimit(resource.RLIMIT_STACK, (resource.RLIM_INFINITY, resource.RLIM_INFINITY))
+    except (ValueError, OSError):
+        try: resource.setrlimit(resource.RLIMIT_STACK, (1 << 30, 1 << 30))
+        except (ValueError, OSError): pass
+
 def run_side(cmd, traces_text, env=None, timeout=3000):
-    p = subprocess.run(cmd, input=traces_text, stdout=subprocess.PIPE, stderr=subprocess.PIPE, text=True, errors="replace", env=env, timeout=timeout)
+    p = subprocess.run(cmd, input=traces_text, stdout=subprocess.PIPE, stderr=subprocess.PIPE, text=True, errors="replace", env=env, timeout=timeout,
+                       preexec_fn=_big_stack)
     return parse_out(p.stdout), p
 
 def chunked(lst, n):
